@@ -275,11 +275,15 @@ Section Field.
         else fa_em fuel' iter' n D d eps X A' sig' newll
       end.
 
-    (* FactorAnalysis::embed: mean = compute_mean; X.col(i) = x_i - mean; return X^T A *)
-    Definition fa_embed (max_iter n D d : nat) (eps : F) (A0 : mat F) (S : mat F) : list (list F) :=
-      let m := mean_vec n S in
-      let Xc := memo D n (fun t i => S i t - m t) in
+    (* the part of project() after the centred data matrix XL (D rows, one column per sample) is built *)
+    Definition fa_core (max_iter n D d : nat) (eps : F) (A0 : mat F) (XL : list (list F))
+      : list (list F) :=
+      let Xc := mof XL in
       let A := fa_em max_iter 0 n D d eps Xc (memo D d A0) mI 0 in
       mtab n d (fun i c => sumn D (fun t => Xc t i * A t c)).
+
+    (* FactorAnalysis::embed: mean = compute_mean; X.col(i) = x_i - mean; ...; return X^T A *)
+    Definition fa_embed (max_iter n D d : nat) (eps : F) (A0 : mat F) (S : mat F) : list (list F) :=
+      fa_core max_iter n D d eps A0 (mtab D n (fun t i => S i t - mean_vec n S t)).
   End FA.
 End Field.
